@@ -265,6 +265,77 @@ static Verdict run_c06_pipe(const Case &c, const EncCase &e, const bytes &base)
   return v;
 }
 
+// several verifications at the same time in one process (a front end that checks several files on several threads):
+// one thread with the right key, the others with wrong keys. Real threads; run under ThreadSanitizer, whose report of a
+// race inside wencry is the verdict (two verifications share state that one of them writes); an accepted wrong key is
+// one as well.
+static Verdict run_c06_conc(const Case &c, const EncCase &e, const bytes &base)
+{
+  Verdict v;
+  v.nontrivial = true;
+  v.distinct = fnv64("conc" + c.text());
+  v.classes.push_back("kind=conc");
+  if (wapi::has_scheduler())
+    return v; // real threads only
+  std::vector<bytes> keys = {e.key};
+  for (int k = 0; k < 3; k++)
+  {
+    bytes w = e.key;
+    long bit = (c.geti("roff") * (k + 3) * 29 + k * 41) % 128;
+    w[(size_t)(bit / 8)] ^= (uint8_t)(1 << (bit % 8));
+    keys.push_back(w);
+  }
+  int reps = (int)c.geti("reps", 40);
+  v.weight = keys.size() * (uint64_t)reps;
+  ChildResult r = run_in_child([&]() {
+    std::vector<int> ok = wapi::verify_concurrent(base, keys, e.T, e.chunk, e.refill, reps);
+    Ser s;
+    for (int x : ok)
+      s.u32((uint32_t)x);
+    return s.b;
+  }, 120);
+  std::string ctxt = " [" + std::to_string(keys.size()) + " threads verify one " + std::to_string(base.size()) + "-byte file at the same time, " + std::to_string(reps) + " rounds each: the right key " + hex(e.key) + " and three one-bit neighbours, hmode " + std::to_string(e.hmode) + "]";
+  if (r.status == CH_EXIT && r.code == 97)
+  {
+    size_t p1 = r.detail.find("WARNING:");
+    std::string first = r.detail.substr(p1 == std::string::npos ? 0 : p1, 700);
+    for (auto &ch : first)
+      if (ch == '\n')
+        ch = '|';
+    if (r.detail.find("/kernel/") == std::string::npos)
+    {
+      Verdict f = Verdict::fail("harness: ThreadSanitizer report without a frame in wencry: " + first);
+      f.infra = true;
+      return f;
+    }
+    Verdict f = Verdict::fail("ThreadSanitizer: verifications that run at the same time (one of them with a wrong key) share state that one of them writes - which key a tag is computed under then depends on timing: " + first + ctxt);
+    f.nontrivial = true;
+    return f;
+  }
+  if (r.status == CH_TIMEOUT)
+  {
+    v.nontrivial = false;
+    v.classes.push_back("watchdog_inconclusive");
+    return v;
+  }
+  if (r.status != CH_OK)
+    return Verdict::fail("concurrent verifications did not end normally: " + r.describe() + ctxt);
+  De d(r.payload);
+  std::vector<uint32_t> ok;
+  for (size_t i = 0; i < keys.size(); i++)
+    ok.push_back(d.u32());
+  for (size_t i = 1; i < keys.size(); i++)
+    if (ok[i] > 0)
+    {
+      Verdict f = Verdict::fail("verification succeeded with a wrong key (" + hex(keys[i]) + ", " + std::to_string(ok[i]) + " of " + std::to_string(reps) + " times) while another thread verified with the right key" + ctxt);
+      f.nontrivial = true;
+      return f;
+    }
+  if (ok[0] != (uint32_t)reps)
+    v.classes.push_back("right_key_not_always_accepted_under_concurrency_see_C01_C12");
+  return v;
+}
+
 static Verdict run_c06(const Case &c)
 {
   if (c.get("kind", "one") == "cli")
@@ -278,6 +349,8 @@ static Verdict run_c06(const Case &c)
     return run_c06_rderr(c, e, base);
   if (c.get("kind", "one") == "pipe")
     return run_c06_pipe(c, e, base);
+  if (c.get("kind", "one") == "conc")
+    return run_c06_conc(c, e, base);
   std::vector<bytes> keys;
   std::vector<std::string> labels;
   std::string kind = c.get("kind", "one");
@@ -422,6 +495,32 @@ static void fixed_c06(Ctx &ctx)
 {
   const Prop *p = find_prop("C06");
   uint64_t i = 0;
+  if (ctx.mode == "conc")
+  {
+    for (int rep = 0; rep < (ctx.thorough() ? 6 : 1); rep++)
+      for (int hm = 0; hm < 3; hm++)
+        for (int len : {40, 700})
+        {
+          if (!mine(ctx, i++))
+            continue;
+          Case c;
+          c.set("kind", "conc");
+          c.seti("plen", len + rep);
+          c.set("pseed", std::to_string(ctx.seed * 10 + (uint64_t)(rep * 7 + hm)));
+          c.seti("pstyle", 0);
+          c.setb("key", expand(ctx.seed * 17 + (uint64_t)(rep * 3 + hm), 16, 0));
+          c.setb("seed", bytes{'c', 'c'});
+          c.seti("cmode", (hm + rep) % 5);
+          c.seti("hmode", hm);
+          c.seti("T", 2);
+          c.seti("chunk", 32);
+          c.seti("refill", 2);
+          c.seti("roff", 100 + rep * 13 + hm);
+          c.seti("reps", 40);
+          eval_fixed(*p, ctx, c);
+        }
+    return;
+  }
   if (ctx.mode == "cli")
   {
     for (int rep = 0; rep < (ctx.thorough() ? 8 : 1); rep++)
